@@ -102,10 +102,10 @@ def make_slicer(cfg):
     vr = cfg.get("value_range")
     vr = tuple(vr) if vr is not None else None
     if cfg["slicer"] == "woi":
-        return WidthOfIntervalSlicer(cfg["width"], reference=_ref(cfg["reference"]), right_open=cfg["right_open"], value_range=vr, **kw)
+        return slicemon.remember_configuration(WidthOfIntervalSlicer(cfg["width"], reference=_ref(cfg["reference"]), right_open=cfg["right_open"], value_range=vr, **kw))
     if cfg["slicer"] == "noi":
-        return NumberOfIntervalsSlicer(cfg["n_intervals"], reference=_ref(cfg["reference"]), include_max=cfg["include_max"], value_range=vr, **kw)
-    return PointsPerIntervalSlicer(cfg["n_points"], reference=_ref(cfg["reference"]), last_full=cfg["last_full"], **kw)
+        return slicemon.remember_configuration(NumberOfIntervalsSlicer(cfg["n_intervals"], reference=_ref(cfg["reference"]), include_max=cfg["include_max"], value_range=vr, **kw))
+    return slicemon.remember_configuration(PointsPerIntervalSlicer(cfg["n_points"], reference=_ref(cfg["reference"]), last_full=cfg["last_full"], **kw))
 
 
 def _drive(slicer, data):
